@@ -3,7 +3,7 @@ import ast
 import re
 
 from ..core import AnalysisError, norm
-from .common import (effects, paths_of, check_writers, arg_by_name, named_call_sites)
+from .common import (check_zero_is_a_value, effects, paths_of, check_writers, arg_by_name, named_call_sites)
 from ..sim import check_reach
 
 
@@ -54,6 +54,7 @@ def run(ctx):
     f_dec = repo.func('letter_id_generator.letter_id_to_number')
     f_isl = repo.func('matcher._is_letter')
     # ---- C14.1 ------------------------------------------------------------------------------------------
+    check_zero_is_a_value(ctx, 'C14.1', 'incarnation 0 (letter a), position 0', lambda f: f.module.name in ('core.letter_id_generator', 'core.wl.object', 'core.matcher'), floor=20)
     # letters the encoder can produce: chr(R + base) with R a remainder modulo M (x % M or divmod(x, M)[1]) and
     # base = ord('A') if caps else ord('a'); read from the substituted terms of the paths (so temporaries, divmod and
     # hoisted constants are looked through)
